@@ -623,7 +623,7 @@ class Facts:
             # a recorded helper that was inlined into its only caller and deleted: its code is in that caller now
             movers = [g for g, ms in (getattr(self, "moved_into", None) or {}).items()
                       if any(m == suffix or m.endswith("::" + suffix) or m.endswith(">::" + suffix) for m in ms)]
-            if len(movers) == 1 and movers[0] in self.fns:
+            if required and len(movers) == 1 and movers[0] in self.fns:
                 return self.fns[movers[0]]
             if required:
                 raise AnchorMissing("fn " + suffix)
